@@ -800,7 +800,6 @@ func validateSpaceAndExits(c *Ctx, r *Rep, fn, validate *ssa.Function, d *dpRend
 	// --- allowOther: the rejection for a missing mandatory attribute is decided attribute by attribute, i.e. inside
 	// a loop that runs over the profile's attribute list (a tally over the subject counts a repeated attribute twice)
 	{
-		loops := naturalLoops(fn)
 		var attrLike func(v ssa.Value, depth int) bool
 		attrLike = func(v ssa.Value, depth int) bool {
 			if sl, ok := v.Type().Underlying().(*types.Slice); ok {
@@ -851,23 +850,43 @@ func validateSpaceAndExits(c *Ctx, r *Rep, fn, validate *ssa.Function, d *dpRend
 				continue
 			}
 			readsAllowOther = true
+			inAttrLoop := func(f *ssa.Function, blk *ssa.BasicBlock) bool {
+				for h, body := range naturalLoops(f) {
+					if !overAttributes(h) {
+						continue
+					}
+					// an exit from inside the loop is not part of the natural loop: it lies behind the header's way into the body
+					for _, sc := range h.Succs {
+						if body[sc] && sc.Dominates(blk) {
+							return true
+						}
+					}
+				}
+				return false
+			}
 			v, isK := constBoolResult(ret)
-			if !isK || v {
+			if !isK {
+				// the answer of a helper of the module: its rejecting exits are looked at the same way
+				if res := retResults(ret); len(res) == 1 {
+					if call, ok := res[0].(*ssa.Call); ok {
+						if h := call.Call.StaticCallee(); h != nil && h.Blocks != nil && c.InModule(h) {
+							for _, hr := range returnsOf(h) {
+								if hv, hk := constBoolResult(hr); hk && !hv {
+									n++
+									ok := inAttrLoop(h, hr.Block())
+									r.Check(ok, sprintf("mandatory-per-attribute|%s#%d", fk, n), c.Pos(hr.Pos()), "with other attributes allowed, the rejection is decided inside a loop over the profile's attributes (one decision per mandatory attribute)", sprintf("in %s, inside such a loop: %v", h.Name(), ok))
+								}
+							}
+						}
+					}
+				}
+				continue
+			}
+			if v {
 				continue
 			}
 			n++
-			inLoop := false
-			for h, body := range loops {
-				if !overAttributes(h) {
-					continue
-				}
-				// an exit from inside the loop is not part of the natural loop: it lies behind the header's way into the body
-				for _, sc := range h.Succs {
-					if body[sc] && sc.Dominates(ret.Block()) {
-						inLoop = true
-					}
-				}
-			}
+			inLoop := inAttrLoop(fn, ret.Block())
 			r.Check(inLoop, sprintf("mandatory-per-attribute|%s#%d", fk, n), c.Pos(ret.Pos()), "with other attributes allowed, the rejection is decided inside a loop over the profile's attributes (one decision per mandatory attribute)", sprintf("inside such a loop: %v", inLoop))
 		}
 		if readsAllowOther && n == 0 {
